@@ -105,6 +105,15 @@ PropClauses(c, ver, lib, cpylines, insp, removal) ==
               [k \in DOMAIN lib.additional |-> <<lib.additional[k][1], lib.additional[k][2]>>]
               = Unreferenced("N", c.names, used.N) \o Unreferenced("V", c.varnames, used.V)
                 \o Unreferenced("C", c.cellvars, used.C) \o Unreferenced("K", c.consts, used.K)>>
+       ,
+        \* ---------------- C14
+        <<"P14.iter", ok =>
+              LET want == SelectSeq([k \in DOMAIN c.consts |-> IF c.const_is_code[k] THEN c.consts[k] ELSE -1], LAMBDA x: x # -1)
+                  cnt(sq, x) == Cardinality({k \in DOMAIN sq : sq[k] = x})
+              IN /\ lib.iter_exc = ""
+                 /\ Len(lib.iter) = Len(want)
+                 /\ \A k \in DOMAIN want : cnt(lib.iter, want[k]) = cnt(want, want[k])>>,
+        <<"P14.all", ok => (lib.all_count = c.expected_all /\ lib.all_first_self)>>
        >>
 
 =============================================================================
